@@ -20,6 +20,7 @@ type Root struct {
 	MaxDecs  int // bound on decisions per path (unwinding bound)
 	MaxSteps int
 	Note     string
+	LibPrio  bool // exploration restricted to schedules in which library threads run to their next blocking point before the environment moves
 }
 
 func (r Root) Key() string {
@@ -42,8 +43,10 @@ type RootResult struct {
 	Inconclusive []string
 	Covers       map[string]bool
 	Witnesses    []*Witness
+	Probes       []*Witness
 	CoverWitness map[string]*Witness
 	Funcs        map[string]bool
+	RaceChecks   int
 	mu           sync.Mutex
 	pending      int
 }
@@ -144,6 +147,7 @@ func (x *Explorer) Run() {
 					skip = true
 				}
 				wantW := len(rr.Witnesses) < x.maxWitnessPerRoot
+				wantP := len(rr.Probes) < 2
 				covered := map[string]bool{}
 				for l := range rr.CoverWitness {
 					covered[l] = true
@@ -153,7 +157,7 @@ func (x *Explorer) Run() {
 					if alt == nil {
 						alt, _ = NewSolver("cvc5", x.timeoutMs)
 					}
-					pr = runPath(x.P, sol, alt, rr.Root, it.prefix, wantW, covered, x.verbose)
+					pr = runPath(x.P, sol, alt, rr.Root, it.prefix, wantW, wantP, covered, x.verbose)
 				}
 
 				mu.Lock()
@@ -173,6 +177,7 @@ func (x *Explorer) Run() {
 					rr.Steps += pr.Steps
 					rr.Asserts += pr.Asserts
 					rr.AssertsFold += pr.AssertsFold
+					rr.RaceChecks += pr.RaceChecks
 					for f := range pr.FuncsSeen {
 						rr.Funcs[f] = true
 					}
@@ -186,6 +191,9 @@ func (x *Explorer) Run() {
 					}
 					for _, s := range pr.Inconclusive {
 						rr.Inconclusive = appendUniq(rr.Inconclusive, s)
+					}
+					if pr.Probe != nil && len(rr.Probes) < 2 {
+						rr.Probes = append(rr.Probes, pr.Probe)
 					}
 					if pr.Witness != nil {
 						if len(rr.Witnesses) < x.maxWitnessPerRoot {
